@@ -228,20 +228,40 @@ theorem label_points_at_instruction (es : List TEntry) (pending : List (Nat × S
 
 /-! ## 8  Branch and jump operands encode the pc-relative displacement -/
 
-/-- B-type with a label operand (`label` or `label + 0x…`): the instruction at address `a` gets the
-    immediate `sext13 (L + offset − a)` where `L` is the label's address. -/
+/-- B-type with a label operand (`label` or `label + 0x…`): when the displacement `L + offset − a` is
+    even, the instruction at address `a` gets the immediate `sext13 (L + offset − a)` where `L` is the
+    label's address. -/
 theorem branch_label_displacement (ls : Labels) (a : Int) (k : Nat) (line : String) (mn : String) (op : Op)
     (hop : Op.ofMnemonic mn = some op) (hty : op.ty = .b) (r1 r2 : Nat) (l : String) (off L : Int)
-    (hl : lookupLabel ls l = some L) :
+    (hl : lookupLabel ls l = some L) (heven : (L + off - a) % 2 = 0) :
     instantiate ls a k line (.btypeLabel mn r1 r2 l off) =
       .ok { op := op, rd := 0, rs1 := r1, rs2 := r2, imm := sextImm 13 (L + off - a), aux := 0 } :=
-  instantiate_btypeLabel ls a k line mn op hop hty r1 r2 l off L hl
+  instantiate_btypeLabel ls a k line mn op hop hty r1 r2 l off L hl heven
+
+/-- B-type with a label operand whose displacement `L + offset − a` is odd (e.g. `beq x0, x0, foo+0x3`):
+    rejected with `ParserOddImmediateException`, exactly like an odd number. -/
+theorem branch_label_odd_rejected (ls : Labels) (a : Int) (k : Nat) (line : String) (mn : String) (op : Op)
+    (hop : Op.ofMnemonic mn = some op) (r1 r2 : Nat) (l : String) (off L : Int)
+    (hl : lookupLabel ls l = some L) (hodd : (L + off - a) % 2 ≠ 0) :
+    instantiate ls a k line (.btypeLabel mn r1 r2 l off) =
+      .error (.parser "ParserOddImmediateException" k line) :=
+  instantiate_btypeLabel_odd ls a k line mn op hop r1 r2 l off L hl hodd
 
 /-- An undefined label is rejected with `ParserLabelException`. -/
 theorem branch_label_unknown (ls : Labels) (a : Int) (k : Nat) (line : String) (mn : String) (op : Op)
     (hop : Op.ofMnemonic mn = some op) (r1 r2 : Nat) (l : String) (off : Int) (hl : lookupLabel ls l = none) :
     instantiate ls a k line (.btypeLabel mn r1 r2 l off) = .error (.parser "ParserLabelException" k line) :=
   instantiate_btypeLabel_unknown ls a k line mn op hop r1 r2 l off hl
+
+/-- The parity of a label displacement is the parity of the written offset: every label of a successful
+    label pass (stand-alone or in-line) is a multiple of 4, and so is every instruction address `4j`; hence
+    `L + off − 4j` is even exactly when `off` is. -/
+theorem label_displacement_even_iff (es : List TEntry) (pending : List (Nat × String)) (ls : Labels)
+    (h : processLabels es pending [] 0 = .ok ls) (l : String) (L : Int) (hl : lookupLabel ls l = some L)
+    (off : Int) (j : Nat) :
+    L % 4 = 0 ∧ ((L + off - 4 * (j : Int)) % 2 = 0 ↔ off % 2 = 0) := by
+  have hL := label_mult4 es pending ls h l L hl
+  exact ⟨hL, disp_even_iff_off_even L off (4 * (j : Int)) hL (by omega)⟩
 
 /-- B-type with a numeric operand: an even number `n` is itself the displacement (stored sign-extended
     to 13 bits, whatever the address); an odd number is rejected. -/
@@ -260,13 +280,25 @@ theorem jal_number_displacement (ls : Labels) (a : Int) (k : Nat) (line : String
       else .ok { op := .jal, rd := rd, rs1 := 0, rs2 := 0, imm := sextImm 21 (n - a), aux := n } :=
   instantiate_jalImm ls a k line rd n
 
-/-- `jal rd, label (+ offset)`: the stored immediate is `sext21 (L + offset − a)`, the printed target is
-    `L + offset`. -/
+/-- `jal rd, label (+ offset)` with an even displacement `L + offset − a`: the stored immediate is
+    `sext21 (L + offset − a)`, the printed target is `L + offset`. -/
 theorem jal_label_displacement (ls : Labels) (a : Int) (k : Nat) (line : String) (rd : Nat) (l : String)
-    (off L : Int) (hl : lookupLabel ls l = some L) :
+    (off L : Int) (hl : lookupLabel ls l = some L) (heven : (L + off - a) % 2 = 0) :
     instantiate ls a k line (.jalLabel rd l off) =
       .ok { op := .jal, rd := rd, rs1 := 0, rs2 := 0, imm := sextImm 21 (L + off - a), aux := L + off } :=
-  instantiate_jalLabel ls a k line rd l off L hl
+  instantiate_jalLabel ls a k line rd l off L hl heven
+
+/-- `jal rd, label + offset` with an odd displacement is rejected with `ParserOddImmediateException`. -/
+theorem jal_label_odd_rejected (ls : Labels) (a : Int) (k : Nat) (line : String) (rd : Nat) (l : String)
+    (off L : Int) (hl : lookupLabel ls l = some L) (hodd : (L + off - a) % 2 ≠ 0) :
+    instantiate ls a k line (.jalLabel rd l off) = .error (.parser "ParserOddImmediateException" k line) :=
+  instantiate_jalLabel_odd ls a k line rd l off L hl hodd
+
+/-- `jal rd, label` with an undefined label is rejected with `ParserLabelException`. -/
+theorem jal_label_unknown (ls : Labels) (a : Int) (k : Nat) (line : String) (rd : Nat) (l : String)
+    (off : Int) (hl : lookupLabel ls l = none) :
+    instantiate ls a k line (.jalLabel rd l off) = .error (.parser "ParserLabelException" k line) :=
+  instantiate_jalLabel_unknown ls a k line rd l off hl
 
 /-- Sign extension is the identity on the encodable range (±4 KiB for branches, ±1 MiB for `jal`); in
     general the stored value is congruent to the displacement modulo 2^13 (2^21) and encodable. -/
@@ -279,7 +311,8 @@ theorem displacement_encodable (d : Int) :
 /-- A taken branch to a label transfers control to the label (plus offset). Precisely: let the
     instruction memory (uncached) hold at `s.pc` the object `instantiate` built at address `s.pc` for
     `mn r1, r2, l + off` (any of the six branch mnemonics), the label `l` be bound to `L`, the
-    displacement `L + off − pc` be encodable, and the branch condition hold. Then one single-cycle step
+    displacement `L + off − pc` be encodable (it is even, since `instantiate` succeeded), and the branch
+    condition hold. Then one single-cycle step
     raises no fault, sets the pc to `(L + off) mod 2^32`, and changes no register and not the memory. -/
 theorem branch_taken_transfers (s : St) (ls : Labels) (k : Nat) (line : String) (mn : String) (op : Op)
     (hop : Op.ofMnemonic mn = some op) (hty : op.ty = .b) (r1 r2 : Nat) (l : String) (off L : Int)
@@ -290,7 +323,11 @@ theorem branch_taken_transfers (s : St) (ls : Labels) (k : Nat) (line : String) 
     (hcond : branchCond op (s.regs r1) (s.regs r2) = true) :
     (singleStep s).fault = none ∧ (singleStep s).st.pc = (L + off) % 4294967296 ∧
     (singleStep s).st.regs = s.regs ∧ (singleStep s).st.mem = s.mem := by
-  rw [instantiate_btypeLabel ls s.pc k line mn op hop hty r1 r2 l off L hl] at hi
+  have heven : (L + off - s.pc) % 2 = 0 := by
+    by_cases hodd : (L + off - s.pc) % 2 ≠ 0
+    · rw [instantiate_btypeLabel_odd ls s.pc k line mn op hop r1 r2 l off L hl hodd] at hi; cases hi
+    · omega
+  rw [instantiate_btypeLabel ls s.pc k line mn op hop hty r1 r2 l off L hl heven] at hi
   cases hi
   have hb := behavior_branch
     { op := op, rd := 0, rs1 := r1, rs2 := r2, imm := sextImm 13 (L + off - s.pc), aux := 0 } hty
@@ -337,7 +374,11 @@ theorem jal_label_transfers (s : St) (ls : Labels) (k : Nat) (line : String) (rd
     (hc : s.imem.cache = none) (hpc : 0 ≤ s.pc ∧ s.pc < 16384) (hat : s.imem.instrAt s.pc = some i) :
     (singleStep s).fault = none ∧ (singleStep s).st.pc = (L + off) % 4294967296 ∧
     (singleStep s).st.regs = Rv.setReg s.regs rd (wrapU (s.pc + 4)) ∧ (singleStep s).st.mem = s.mem := by
-  rw [instantiate_jalLabel ls s.pc k line rd l off L hl] at hi
+  have heven : (L + off - s.pc) % 2 = 0 := by
+    by_cases hodd : (L + off - s.pc) % 2 ≠ 0
+    · rw [instantiate_jalLabel_odd ls s.pc k line rd l off L hl hodd] at hi; cases hi
+    · omega
+  rw [instantiate_jalLabel ls s.pc k line rd l off L hl heven] at hi
   cases hi
   have hb := behavior_jal
     { op := .jal, rd := rd, rs1 := 0, rs2 := 0, imm := sextImm 21 (L + off - s.pc), aux := L + off } rfl
@@ -396,6 +437,16 @@ example : exPending.find? (fun q => q.1 == 2) = some (2, "foo") ∧ (exText[1]).
 example : buildInstrs exLabels exText 0 = .ok exProg := by rfl
 example : exProg[2]? = some { op := .beq, rs1 := 5, rs2 := 0, imm := 12 }
     ∧ exProg[4]? = some { op := .jal, rd := 0, imm := -4, aux := 12 } := by decide
+-- an odd offset is rejected: `jal x0, loop+0x3` at address 16 (displacement 8 + 3 − 16 = −5), and
+-- `beq x5, x0, end+0x1` at address 8 (hypotheses of `jal_label_odd_rejected` / `branch_label_odd_rejected`)
+example : lookupLabel exLabels "loop" = some 8 ∧ ((8 : Int) + 3 - 16) % 2 ≠ 0 ∧
+    instantiate exLabels 16 6 "jal x0, loop+0x3" (.jalLabel 0 "loop" 3) =
+      .error (.parser "ParserOddImmediateException" 6 "jal x0, loop+0x3") := ⟨by decide, by decide, by rfl⟩
+example : lookupLabel exLabels "end" = some 20 ∧ ((20 : Int) + 1 - 8) % 2 ≠ 0 ∧
+    instantiate exLabels 8 4 "beq x5, x0, end+0x1" (.btypeLabel "beq" 5 0 "end" 1) =
+      .error (.parser "ParserOddImmediateException" 4 "beq x5, x0, end+0x1") := ⟨by decide, by decide, by rfl⟩
+-- the even case (hypotheses of `branch_label_displacement`): `end` − 8 = 12
+example : lookupLabel exLabels "end" = some 20 ∧ ((20 : Int) + 0 - 8) % 2 = 0 := by decide
 -- executing the program from a fresh state: after `lui; addi`, x5 = 100000, the branch is not taken
 example : ((runSeq (exProg.take 2) freshSt).st.regs 5) = 100000 := by decide
 
